@@ -165,6 +165,8 @@ impl Sched {
             Status::AtPoint(PointKind::Start) => true,
             Status::AtPoint(PointKind::User(_)) => true,
             Status::AtPoint(PointKind::Hook(Point::Rmw { .. })) => true,
+            // a try-lock never waits; a thread inside a critical section can always go on
+            Status::AtPoint(PointKind::Hook(Point::TryLock { .. })) | Status::AtPoint(PointKind::Hook(Point::InSection { .. })) => true,
             Status::AtPoint(PointKind::Hook(Point::Lock { addr, write, .. })) => match st.locks.get(addr) {
                 None => true,
                 Some(l) => {
